@@ -590,12 +590,12 @@ def pol_frames(ctx):
 
             def scenario(q, scen=scen, coated=coated):
                 kind, txt = q
-                if kind == 'if' and 'np.any(' in txt and '== 0' in txt:
+                if kind == 'if' and txt.startswith('np.any('):
                     return scen == 'parallel'
                 if kind == 'if' and txt.replace(' ', '') == \
                         'jones_matrixisNone':
                     return not coated
-                if kind == 'mask' and '== 0' in txt:
+                if kind == 'mask':
                     return True
                 return None
             ev = VecEv(sym=sym, attr=attr, scenario=scenario)
@@ -655,8 +655,28 @@ def pol_frames(ctx):
                                      construct=f'update: {tag}'))
             else:
                 res.ok(f'update, {tag}')
+    # the parallel case is recognised with a tolerance: the cross product of
+    # two directions that differ by rounding only is noise, and normalising
+    # noise gives an s that is not perpendicular to the ray
+    from ..match import find, find_seq
+    tol = find_seq(up, ['$m = np.linalg.norm($s, axis=1)', '$p = $m < $eps',
+                        'if np.any($p):\n    $s[$p] = $v\n    $m = $w']) or \
+        find_seq(up, ['$m = np.linalg.norm($s, axis=1)',
+                      'if np.any($m < $eps):\n    $s[$m < $eps] = $v\n'
+                      '    $m = $w'])
+    exact = find(up, 'np.any($m == 0)')
+    if tol and not exact:
+        res.ok('parallel directions detected with a tolerance on |k0 x k1|')
+    else:
+        res.fail(ctx.finding(
+            'POL-FRAMES', up, up.node,
+            'the parallel-direction case is detected with |k0 x k1| == 0 '
+            'exactly: at an index-matched curved surface or a curved image '
+            'surface the two directions differ by rounding, the cross '
+            'product is noise and its normalisation is not perpendicular to '
+            'the ray (intensity off by up to 0.99 on the bundled Hubble '
+            'telescope)', construct='update: exact-zero parallel test'))
     # composition order and left multiplication
-    from ..match import find
     if find(up, 'self.p = np.matmul($p, self.p)'):
         res.ok('ray matrix := surface matrix x ray matrix')
     else:
